@@ -4,6 +4,7 @@ import (
 	"bytes"
 	"context"
 	"encoding/json"
+	"errors"
 	"fmt"
 	"os"
 	"path/filepath"
@@ -319,6 +320,19 @@ func (w *world) step1(ev string) {
 			w.compare("after lookup")
 			w.checkCache("after lookup", true)
 		}
+	case "updfail":
+		// NewUpdater whose builder fails, on a name for which a handle has already been handed out: the
+		// call must report the error and must leave the name as pinned as it was. (On other names the
+		// event is disabled: whether the failed attempt pins the name is not fixed by any statement.)
+		e := w.m[name]
+		if e == nil || !e.Handle {
+			return
+		}
+		u, err := setec.NewUpdater(ctx, w.st, name, func([]byte) (string, error) { return "", errors.New("builder fails") })
+		if err == nil || u != nil {
+			w.fail("C15", "newupdater-failing-builder", "NewUpdater(%q) with a failing builder returned (%v, %v)", name, u, err)
+		}
+		e.LastAccess = w.now() // the builder was handed the current bytes: a read
 	case "poll":
 		// which requests will fail?
 		willFail := false
@@ -449,6 +463,9 @@ func events(cfg seqCfg) []string {
 	var out []string
 	for _, n := range cfg.Names {
 		out = append(out, "put:"+n, "back:"+n, "failnext:"+n, "secret:"+n, "read:"+n, "lookup:"+n)
+	}
+	for _, n := range cfg.Names {
+		out = append(out, "updfail:"+n)
 	}
 	out = append(out, "poll", "restart", "clock:half", "clock:age")
 	return out
